@@ -27,6 +27,7 @@ const (
 	opJoinPartial = 4
 	opJoinOlder   = 5
 	opJoinFresh   = 6
+	opFork        = 7
 )
 
 type histCfg struct {
@@ -35,6 +36,7 @@ type histCfg struct {
 	symClock bool
 	reload   bool // step kind "reload": rebuild the replica from its entries with NewLog (what the loaders do)
 	deny     bool // replica 0 refuses entries signed by the last writer
+	fork     bool // step kind "fork": replica dst is replaced by a new log built from replica src's GetEntries() (both stay live)
 	denyP0   bool // only replica 0 refuses the denyP-th payload (the others create and hold that entry)
 	closing  bool // after the K steps every replica merges a fresh single-entry log of its own writer (one more observed step each)
 	pcAlt    int  // if non-zero: each append uses the default pointer count or this one
@@ -49,7 +51,7 @@ type histCfg struct {
 
 func histParams() histCfg {
 	return histCfg{R: vx.Param("R", 2), K: vx.Param("K", 3), W: vx.Param("W", 2), sort: vx.Param("SORT", sortHash),
-		symClock: vx.Param("SYMCLOCK", 0) == 1, reload: vx.Param("RELOAD", 0) == 1, deny: vx.Param("DENY", 0) == 1, pcN: vx.Param("PCN", 1), emptyAt: vx.Param("EMPTYAT", -1), realIO: vx.Param("REALIO", 0) == 1, setID: vx.Param("SETID", 0) == 1, partial: vx.Param("PARTIAL", 0) >= 1, older: vx.Param("PARTIAL", 0) == 2, denyP: vx.Param("DENYP", -1), pcAlt: vx.Param("PCALT", 0), denyP0: vx.Param("DENYP0", 0) == 1, closing: vx.Param("CLOSE", 0) == 1}
+		symClock: vx.Param("SYMCLOCK", 0) == 1, reload: vx.Param("RELOAD", 0) == 1, deny: vx.Param("DENY", 0) == 1, pcN: vx.Param("PCN", 1), emptyAt: vx.Param("EMPTYAT", -1), realIO: vx.Param("REALIO", 0) == 1, setID: vx.Param("SETID", 0) == 1, partial: vx.Param("PARTIAL", 0) >= 1, older: vx.Param("PARTIAL", 0) == 2, denyP: vx.Param("DENYP", -1), pcAlt: vx.Param("PCALT", 0), denyP0: vx.Param("DENYP0", 0) == 1, closing: vx.Param("CLOSE", 0) == 1, fork: vx.Param("FORKOP", 0) == 1}
 }
 
 var pcTable = []int{0, 2, 4, 3, 8, -1, 16, 1}
@@ -140,6 +142,10 @@ func (h *hist) run(pre func(h *hist), post func(h *hist)) {
 	if h.cfg.older {
 		nOps += R * (R - 1)
 	}
+	baseFork := nOps
+	if h.cfg.fork {
+		nOps += R * (R - 1)
+	}
 	for s := 0; s < h.cfg.K; s++ {
 		h.step = s
 		op := 0
@@ -148,6 +154,12 @@ func (h *hist) run(pre func(h *hist), post func(h *hist)) {
 		}
 		h.res, h.err, h.pc = nil, nil, 0
 		switch {
+		case op >= baseFork:
+			k := op - baseFork
+			h.kind, h.dst, h.src = opFork, k/(R-1), k%(R-1)
+			if h.src >= h.dst {
+				h.src++
+			}
 		case op >= baseOlder:
 			k := op - baseOlder
 			h.kind, h.dst, h.src = opJoinOlder, k/(R-1), k%(R-1)
@@ -212,6 +224,8 @@ func (h *hist) run(pre func(h *hist), post func(h *hist)) {
 			}
 			part := newLogOpt(h.api, h.writerOf(h.src), &ipfslog.LogOptions{SortFn: h.sortFn(), IO: h.io(), Entries: orderedMapOf(old)})
 			_, h.err = h.logs[h.dst].Join(part, -1)
+		case opFork:
+			h.logs[h.dst] = newLogOpt(h.api, h.writerOf(h.dst), &ipfslog.LogOptions{SortFn: h.sortFn(), IO: h.io(), Entries: h.logs[h.src].GetEntries(), AccessController: h.acs[h.dst]})
 		case opSetID:
 			h.cur[h.dst] = (h.cur[h.dst] + 1) % h.cfg.W
 			h.logs[h.dst].SetIdentity(h.ids[h.cur[h.dst]])
@@ -476,6 +490,7 @@ func (s entrySnap) equalTo(e iface.IPFSLogEntry) bool {
 }
 
 type logSnap struct {
+	listing []string // hashes in index order (GetEntries().Slice())
 	entries []entrySnap
 	values  []iface.IPFSLogEntry
 	n       int
@@ -484,9 +499,36 @@ type logSnap struct {
 func snapLog(l *ipfslog.IPFSLog) logSnap {
 	s := logSnap{values: l.Values().Slice(), n: l.Len()}
 	for _, e := range entriesOf(l) {
+		if e == nil {
+			continue // reported by checkListing
+		}
 		s.entries = append(s.entries, snapEntry(e))
+		s.listing = append(s.listing, hstr(e))
 	}
 	return s
+}
+
+// checkListing: the index listing of a log names each of its entries exactly once.
+func checkListing(l *ipfslog.IPFSLog) []string {
+	es := l.GetEntries()
+	sl := es.Slice()
+	seen := map[string]bool{}
+	ok := len(sl) == l.Len() && len(es.Keys()) == l.Len()
+	var out []string
+	for i, e := range sl {
+		if e == nil {
+			ok = false
+			continue
+		}
+		k := hstr(e)
+		if seen[k] || (i < len(es.Keys()) && es.Keys()[i] != k) {
+			ok = false
+		}
+		seen[k] = true
+		out = append(out, k)
+	}
+	vx.Assert("C05", ok, "the index listing (GetEntries) names each entry of the log exactly once")
+	return out
 }
 
 func H_C05_hist() {
@@ -503,6 +545,13 @@ func H_C05_hist() {
 		}
 		for r, l := range h.logs {
 			s := snaps[r]
+			listing := checkListing(l)
+			if h.kind == opFork && r == h.dst {
+				continue // a new log instance took this slot
+			}
+			if r != h.dst {
+				vx.Assert("C05", sameStrs(listing, s.listing), "an operation on one log instance does not alter the index listing of another instance")
+			}
 			for _, es := range s.entries {
 				c := es.c
 				got, ok := l.Get(c)
